@@ -68,6 +68,11 @@ ASSUME C17_LoadersIdentity ==
                            /\ RangeOf(TltLoad(a, TRUE)) = RangeOf(a) /\ Len(TltLoad(a, TRUE)) = Len(a)
                            /\ \A i, j \in DOMAIN a : i < j => TltLoad(a, TRUE)[i] <= TltLoad(a, TRUE)[j]
                            /\ DoseLoad(a) = a
+    \* row by row whatever the number of rows (also when it equals the number of columns)
+    /\ \A n \in 1..12 : LET rows == [k \in 1..n |-> [u |-> 300000 + k, v |-> 200000 + 3 * k, ang |-> k, ps |-> 0]]
+                        IN  /\ Len(Defocus(rows)) = n
+                            /\ \A k \in 1..n : Defocus(rows)[k] = [d1 |-> 300000 + k, d2 |-> 200000 + 3 * k,
+                                                                   mean2 |-> 500000 + 4 * k, ast |-> k, ps |-> 0]
     /\ Defocus(<< [u |-> 352684, v |-> 350364, ang |-> 2126, ps |-> 0] >>)[1].mean2 = 703048
     /\ MdocDose(<< [tilt |-> 10, prior |-> 50, expo |-> 3], [tilt |-> -10, prior |-> 0, expo |-> 3] >>, TRUE) = <<3, 53>>
 =============================================================================
